@@ -16,6 +16,8 @@ def python_evaluate(s: str) -> int:
     try:
         val = eval(s)
         if isinstance(val, int):
+            # Raises ValueError if the integer is too large to be displayed (as for a literal that is too large)
+            str(val)
             return val
         else:
             raise NotAnIntegerException(s)
